@@ -6,8 +6,13 @@ import (
 	"encoding/base64"
 	"encoding/hex"
 	"encoding/json"
+	"encoding/pem"
 	"fmt"
+	"net/http"
+	"net/http/httptest"
 	"net/url"
+	"os"
+	"path/filepath"
 	"sort"
 	"strings"
 	"testing"
@@ -109,7 +114,12 @@ func remoteAnswer(c vkit.Call) vkit.Reply {
 			return vkit.Reply{Status: 401}
 		}
 
-		raw, _ := json.Marshal(map[string]any{"id": "u-" + echo, "session": c.Header.Get("X-Session")})
+		answer := map[string]any{"id": "u-" + echo, "session": c.Header.Get("X-Session"), "active": true}
+		if strings.HasPrefix(c.Header.Get("X-Session"), "expired-") {
+			answer["exp"] = time.Now().Unix() - 120
+		}
+
+		raw, _ := json.Marshal(answer)
 
 		return vkit.JSONReply(200, raw)
 	case strings.HasPrefix(c.Path, "/introspect"):
@@ -166,6 +176,9 @@ type caseSpec struct {
 	// the answer to another one (RFC 7234, section 4.4; RFC 7231, section 4.3.3)
 	HTTPCache    bool
 	HTTPCacheGET bool
+	// BetweenAB: something which happens to the world between the executions A and B (with and without the cache)
+	BetweenAB func(w *vkit.World)
+	Cleanup   func()
 }
 
 func (c caseSpec) String() string {
@@ -228,6 +241,7 @@ func run(w *vkit.World, e execution) outcome {
 		_ = json.Unmarshal(raw, &claims)
 
 		lastJTI, _ = claims["jti"].(string)
+		claims["verifies with the key published under its key id"] = verifiesWithPublishedKey(w, parts)
 
 		ttl, _ := claims["exp"].(float64)
 		iat, _ := claims["iat"].(float64)
@@ -262,6 +276,10 @@ const repetitions = 8
 var lastJTI string
 
 func checkCase(t *rapid.T, c caseSpec, excl map[string]bool) {
+	if c.Cleanup != nil {
+		defer c.Cleanup()
+	}
+
 	remoteFresh = c.HTTPCache
 	remote.Set(remoteFn)
 	vkit.S.LabelIf(c.HTTPCache, "http_cache_of_the_endpoint_only")
@@ -291,12 +309,21 @@ func checkCase(t *rapid.T, c caseSpec, excl map[string]bool) {
 	}
 
 	callsA := callsTo(c.RemotePath)
+
+	if c.BetweenAB != nil {
+		c.BetweenAB(wOn)
+	}
+
 	onB := run(wOn, c.B)
 
 	// cache off: B alone
 	wOff, _, err := buildWorld(c, false)
 	if err != nil {
 		t.Fatalf("harness: %v", err)
+	}
+
+	if c.BetweenAB != nil {
+		c.BetweenAB(wOff)
 	}
 
 	offB := run(wOff, c.B)
@@ -313,7 +340,7 @@ func checkCase(t *rapid.T, c caseSpec, excl map[string]bool) {
 			"exec_a": fmt.Sprint(c.ExecA), "exec_b": fmt.Sprint(c.ExecB), "outcome_b_cache_on": onB, "outcome_b_cache_off": offB})
 	}
 
-	if firstA != offA {
+	if firstA != offA && c.BetweenAB == nil {
 		t.Fatalf("enabling the cache changed the outcome of the first execution: on=%+v off=%+v\n%s", firstA, offA, c)
 	}
 
@@ -609,7 +636,7 @@ func genGenericAuthenticatorCase(t *rapid.T) caseSpec {
 	session, tenantA, regionA := "s-"+rapid.StringMatching("[a-z]{2}").Draw(t, "session"), "t1", "eu"
 	sessionB, tenantB, regionB := session, tenantA, regionA
 
-	c.Kind = rapid.SampledFrom([]string{"equal", "equal", "credential", "forwarded-header", "forwarded-cookie"}).Draw(t, "pairKind")
+	c.Kind = rapid.SampledFrom([]string{"equal", "equal", "credential", "forwarded-header", "forwarded-cookie", "other-mechanism"}).Draw(t, "pairKind")
 
 	// headers and cookies are forwarded independently of each other; the component which differs is always forwarded
 	fwd := rapid.SampledFrom([]string{"both", "headers", "cookies", "none"}).Draw(t, "forwarded")
@@ -643,6 +670,20 @@ func genGenericAuthenticatorCase(t *rapid.T) caseSpec {
 	case "forwarded-cookie":
 		regionB = "us"
 		c.Kind, c.Detail = "one-component", "forwarded cookie value"
+	case "other-mechanism":
+		// a second entry of the catalogue asks the same endpoint, but looks at what the answer says about the lifetime of the
+		// session - which, for the session used here, is over (the first entry does not care about that)
+		pc2 := config.MechanismConfig{}
+		for k, v := range pc {
+			pc2[k] = v
+		}
+
+		pc2["session_lifespan"] = map[string]any{"active": "active", "not_after": "exp"}
+		c.Authn = append(c.Authn, config.Mechanism{ID: "gen2", Type: "generic", Config: pc2})
+		c.ExecB = []config.MechanismConfig{{"authenticator": "gen2"}}
+		session = "expired-" + session
+		sessionB = session
+		c.Kind, c.Detail = "cross-variant", "another catalogue entry for the same endpoint, which validates the lifetime of the session"
 	}
 
 	mk := func(path, s, ten, reg string) execution {
@@ -766,7 +807,7 @@ func genJWTFinalizerCase(t *rapid.T) caseSpec {
 
 	var hdrB []vkit.HeaderKV
 
-	kinds := []string{"equal", "subject", "claims", "ttl"}
+	kinds := []string{"equal", "subject", "claims", "ttl", "key-replaced"}
 	if npre != 0 {
 		kinds = append(kinds, "outputs", "outputs")
 	}
@@ -785,6 +826,24 @@ func genJWTFinalizerCase(t *rapid.T) caseSpec {
 	case "ttl":
 		refB["config"] = map[string]any{"ttl": "10m"}
 		c.Kind, c.Detail = "cross-variant", "ttl override"
+	case "key-replaced":
+		// the key store names the id of its key itself (X-Key-ID); between the two executions the file is replaced by one
+		// with another key under the same id, and reloaded
+		dir, err := os.MkdirTemp("", "c11ks-")
+		if err != nil {
+			panic(err)
+		}
+
+		ksPath := filepath.Join(dir, "signer.pem")
+		_ = os.WriteFile(ksPath, keyStoreWithKeyID("ecp256", "the-key"), 0o600)
+		pc["signer"] = map[string]any{"name": "verif", "key_store": map[string]any{"path": ksPath}}
+		c.Final[0].Config = pc
+		c.BetweenAB = func(w *vkit.World) {
+			_ = os.WriteFile(ksPath, keyStoreWithKeyID("ecp256b", "the-key"), 0o600)
+			w.Watcher.Fire(ksPath)
+		}
+		c.Cleanup = func() { _ = os.RemoveAll(dir) }
+		c.Kind, c.Detail = "history", "key store replaced by another key under the same key id between the executions"
 	case "outputs":
 		hdrB = []vkit.HeaderKV{{Name: "X-Pre", Value: "other"}}
 		c.Kind, c.Detail = "one-component", "outputs of the earlier steps"
@@ -845,4 +904,52 @@ func TestCacheNeverChangesADecision(t *testing.T) {
 
 		checkCase(t, c, excl)
 	})
+}
+
+// verifiesWithPublishedKey: does the signature of the issued token verify with the key the management endpoint publishes
+// under the key id the token names?
+func verifiesWithPublishedKey(w *vkit.World, parts []string) bool {
+	if len(parts) != 3 {
+		return false
+	}
+
+	var hdr map[string]any
+
+	rawHdr, _ := base64.RawURLEncoding.DecodeString(parts[0])
+	_ = json.Unmarshal(rawHdr, &hdr)
+	sig, _ := base64.RawURLEncoding.DecodeString(parts[2])
+
+	rec := httptest.NewRecorder()
+	w.Mgmt.ServeHTTP(rec, httptest.NewRequest(http.MethodGet, "/.well-known/jwks", nil))
+
+	var set struct {
+		Keys []map[string]any `json:"keys"`
+	}
+
+	_ = json.Unmarshal(rec.Body.Bytes(), &set)
+
+	for _, k := range set.Keys {
+		if k["kid"] != hdr["kid"] {
+			continue
+		}
+
+		pub, _, err := vkit.ParseJWKPublic(k)
+		if err != nil {
+			return false
+		}
+
+		alg, _ := hdr["alg"].(string)
+
+		return vkit.VerifyRaw(alg, pub, []byte(parts[0]+"."+parts[1]), sig)
+	}
+
+	return false
+}
+
+// keyStoreWithKeyID renders the key of a fixture as a key store entry which names its key id explicitly.
+func keyStoreWithKeyID(fixture, keyID string) []byte {
+	block, _ := pem.Decode(vkit.ReadFixture(fixture + ".key.pem"))
+	block.Headers = map[string]string{"X-Key-ID": keyID}
+
+	return pem.EncodeToMemory(block)
 }
